@@ -133,10 +133,32 @@ class MX(SymExec):
 
     e_GeneratorExp = e_ListComp
 
+    def e_DictComp(self, n, st):
+        # {k: v for ..}: like a loop body walked once that stores one entry
+        if len(n.generators) != 1:
+            return Opaque(unparse(n))
+        g = n.generators[0]
+        it = self.ev(g.iter, st)
+        n0 = len(st.events)
+        sub = st.fork()
+        self.bind_loop_target(g.target, sub)
+        tgt = unparse(g.target)
+        sub.loops.append((tgt, self.text(it), set(st.env)))
+        sub.events.append(("loop", tgt, self.text(it), getattr(n, "lineno", 0)))
+        for c in g.ifs:
+            self.ev(c, sub)
+        k, v = self.ev(n.key, sub), self.ev(n.value, sub)
+        st.events.extend(sub.events[n0:])
+        return {k if isinstance(k, (str, int)) else self.text(k): v}
+
     def binop(self, op, a, b, n=None):
         # [..] + [x for ..]: the comprehension stays one (splatted) member of the abstract list
         if isinstance(op, ast.Add) and ((isinstance(a, list) and isinstance(b, Comp)) or (isinstance(a, Comp) and isinstance(b, list))):
             return (list(a) if isinstance(a, list) else [a]) + (list(b) if isinstance(b, list) else [b])
+        # [x] * n: n copies of x
+        if isinstance(op, ast.Mult) and ((isinstance(a, list) and len(a) == 1 and not isinstance(b, (list, tuple, str))) or (isinstance(b, list) and len(b) == 1 and not isinstance(a, (list, tuple, str)))):
+            lst, cnt = (a, b) if isinstance(a, list) else (b, a)
+            return Comp("[%s]*%s" % (self.text(lst[0]), self.text(cnt)), lst[0], "_", "range(%s)" % self.text(cnt), [])
         return SymExec.binop(self, op, a, b, n)
 
     def e_Call(self, n, st):
@@ -182,37 +204,91 @@ def bind_args(params, args, kwargs):
 
 
 # ------------------------------------------------------------------ three-valued evaluation of path conditions under a None-ness assignment
-def _tv(node, none):
-    if isinstance(node, ast.BoolOp):
-        vals = [_tv(v, none) for v in node.values]
-        if isinstance(node.op, ast.And):
-            return False if any(v is False for v in vals) else True if all(v is True for v in vals) else None
-        return True if any(v is True for v in vals) else False if all(v is False for v in vals) else None
-    if isinstance(node, ast.UnaryOp) and isinstance(node.op, ast.Not):
-        v = _tv(node.operand, none)
-        return None if v is None else not v
-    if isinstance(node, ast.Compare) and len(node.ops) == 1 and isinstance(node.ops[0], (ast.Is, ast.IsNot, ast.Eq, ast.NotEq)):
-        l, r = node.left, node.comparators[0]
-        if isinstance(l, ast.Constant) and l.value is None:
-            l, r = r, l
-        if isinstance(r, ast.Constant) and r.value is None and unparse(l) in none:
-            v = none[unparse(l)]
-            return v if isinstance(node.ops[0], (ast.Is, ast.Eq)) else not v
-        if unparse(l) in none and none[unparse(l)] and isinstance(r, ast.Constant) and isinstance(node.ops[0], (ast.Eq, ast.NotEq)):
-            return isinstance(node.ops[0], ast.NotEq)      # None == <non-None constant> is False
+UNK = type("UNK", (), {"__repr__": lambda self: "<unknown>"})()            # value not determined by the assignment
+NOTNONE = type("NOTNONE", (), {"__repr__": lambda self: "<not None>"})()     # some value that is not None
+
+
+def _truth(v):
+    return None if v is UNK or v is NOTNONE else bool(v)
+
+
+def _cmp(op, a, b):
+    if a is UNK or b is UNK:
         return None
-    if isinstance(node, (ast.Name, ast.Attribute)) and unparse(node) in none and none[unparse(node)]:
-        return False                                       # truth value of None
+    if isinstance(op, (ast.Is, ast.IsNot, ast.Eq, ast.NotEq)):
+        if a is NOTNONE or b is NOTNONE:
+            other = b if a is NOTNONE else a
+            if other is not None:
+                return None
+            res = False
+        else:
+            res = a == b
+        return res if isinstance(op, (ast.Is, ast.Eq)) else not res
+    if a is NOTNONE or b is NOTNONE:
+        return None
+    try:
+        if isinstance(op, (ast.In, ast.NotIn)):
+            return (a in b) == isinstance(op, ast.In)
+        return {ast.Lt: a < b, ast.LtE: a <= b, ast.Gt: a > b, ast.GtE: a >= b}[type(op)]
+    except (TypeError, KeyError):
+        return None
+
+
+def _val(node, env):
+    """value of a condition (sub)expression when the source texts in env hold the given values; UNK where env does not decide it"""
+    t = unparse(node)
+    if t in env:
+        return env[t]
     if isinstance(node, ast.Constant):
-        return bool(node.value)
-    return None
+        return node.value
+    if isinstance(node, (ast.Tuple, ast.List, ast.Set)):
+        vals = [_val(e, env) for e in node.elts]
+        return UNK if any(v is UNK or v is NOTNONE for v in vals) else vals
+    if isinstance(node, ast.UnaryOp) and isinstance(node.op, ast.Not):
+        v = _truth(_val(node.operand, env))
+        return UNK if v is None else not v
+    if isinstance(node, ast.UnaryOp) and isinstance(node.op, ast.USub):
+        v = _val(node.operand, env)
+        return -v if isinstance(v, (int, float)) else UNK
+    if isinstance(node, ast.BoolOp):
+        vals = [_truth(_val(v, env)) for v in node.values]
+        if isinstance(node.op, ast.And):
+            return False if any(v is False for v in vals) else True if all(v is True for v in vals) else UNK
+        return True if any(v is True for v in vals) else False if all(v is False for v in vals) else UNK
+    if isinstance(node, ast.Compare):
+        left = _val(node.left, env)
+        res = True
+        for op, rn in zip(node.ops, node.comparators):
+            right = _val(rn, env)
+            r = _cmp(op, left, right)
+            if r is False:
+                return False
+            if r is None:
+                res = UNK
+            left = right
+        return res
+    return UNK
+
+
+def tv_env(text, env):
+    """truth (True / False / None = undecided) of the condition text under env: {source text: value}"""
+    try:
+        return _truth(_val(ast.parse(text, mode="eval").body, env))
+    except SyntaxError:
+        return None
 
 
 def tv_text(text, none):
-    try:
-        return _tv(ast.parse(text, mode="eval").body, none)
-    except SyntaxError:
-        return None
+    """none: {source text: is it None?}"""
+    return tv_env(text, {k: (None if v else NOTNONE) for k, v in none.items()})
+
+
+def consistent_env(conds, env):
+    for t, v in conds:
+        r = tv_env(t, env)
+        if r is not None and r != bool(v):
+            return False
+    return True
 
 
 def consistent(conds, none):
@@ -222,12 +298,6 @@ def consistent(conds, none):
         if r is not None and r != bool(v):
             return False
     return True
-
-
-def none_state(conds, atom):
-    """True: the path is only taken when atom is None; False: only when it is not None; None: the path does not depend on it"""
-    cT, cF = consistent(conds, {atom: True}), consistent(conds, {atom: False})
-    return True if cT and not cF else False if cF and not cT else None
 
 
 def resolve_pieces(ex, v, none):
@@ -445,6 +515,13 @@ def run(repo, chk):
         if isinstance(r, sp.floor):          # x*y // gcd is the same integer
             r = r.args[0]
         oklcm = len(gc) >= 1 and sorted(ex.text(a) for a in gc[0][2][1]) == sorted(lps) and is_zero(r - ex.sym(lps[0]) * ex.sym(lps[1]) / ex.sym(gc[0][1]))
+    if not oklcm and len(lps) == 2:
+        # same integer by another arrangement (x // g * y): evaluated on a grid with the mathematical gcd for _gcd
+        try:
+            hook = lambda name, n, ev: math.gcd(*[ev.ev(a) for a in n.args]) if name == "_gcd" else NotImplemented
+            oklcm = all(LoopEv({lps[0]: x, lps[1]: y}, None, hook).run(lcm.body) == x * y / math.gcd(x, y) for x in range(1, 25) for y in range(1, 25))
+        except (Unknown, Raised, TypeError):
+            oklcm = False
     chk.expect(oklcm, "R-C20-1", "_lcm(x, y) = x*y / gcd(x, y)", loc(lcm), found=str(o[0].ret) if o else None)
     rows = gcd_table(gcd)
     wrong = [(x, y, v) for x, y, v in rows if v != math.gcd(x, y)]
@@ -600,12 +677,7 @@ def run(repo, chk):
                 for t, v in cnds:
                     ln = "len(%s.multipliers)" % var[0]
                     if ln in t:
-                        r = tv_text(t.replace(ln, "0"), {})
-                        if r is None:
-                            try:
-                                r = bool(LoopEv({}).ev(ast.parse(t.replace(ln, "0"), mode="eval").body))
-                            except (Unknown, SyntaxError, TypeError):
-                                r = None
+                        r = tv_env(t, {ln: 0})
                         if r is not None and r != bool(v):
                             guarded = True          # the path cannot be taken by a pattern of length 0
             terms.append((val, guarded, var[0] if var else None))
@@ -784,7 +856,10 @@ def run(repo, chk):
     for o in ex.run(mri):
         if o.raised or o.ret is None:
             continue
-        pj = [v for t, v in o.conds if t == "per_junction"]
+        cT, cF = consistent_env(o.conds, {"per_junction": True}), consistent_env(o.conds, {"per_junction": False})
+        if not cT and not cF:
+            continue        # infeasible combination of the two tests of the flag
+        pj = [True] if cT and not cF else [False] if cF and not cT else []
         env = {k: Opaque(k) for k in ("pressure", "elevation", "Pstar", "demand")}
         refx = SymExec(call_hook=pandas_hook)
         refx.syms = ex.syms
@@ -839,51 +914,52 @@ def run(repo, chk):
         if not paths:
             raise ExtractError("%s: no returning path" % label)
         seen_sel = {}
+        seen_kinds = set()
         for o in paths:
             lk = lookups(ex, o, ex.S(o.ret))
+            walked = [ev_[2] for ev_ in o.events if ev_[0] == "loop"]
             got = []
+            eff = ex.sym("wn.options.energy.global_efficiency")
             for d in lk:
                 var2 = [nm for nm, i, it in d["vars"] if i == 1]
                 v2 = var2[0] if var2 else "?"
+                tab, val, lp = d["table"], d["value"], d["loop"]
+                holds = lambda word: any(word in t and v for t, v in o.conds)        # the path is restricted by a test naming the element class
                 kind = None
-                eff = ex.sym("wn.options.energy.global_efficiency")
-                if d["loop"] in PIPES:
+                okv = False
+                if tab in ("pipe_cost", "pipe_ghg"):
                     kind = "pipe"
-                    okv = d["value"] is not None and is_zero(d["value"] - ex.sym(v2 + ".diameter")) and is_zero(d["mult"] - ex.sym(v2 + ".length"))
-                    okt_ = d["table"] == ("pipe_cost" if fn is anc else "pipe_ghg")
-                elif d["loop"] in TANKS:
+                    okv = tab == ("pipe_cost" if fn is anc else "pipe_ghg") and lp in PIPES and val is not None and is_zero(val - ex.sym(v2 + ".diameter")) and is_zero(d["mult"] - ex.sym(v2 + ".length"))
+                elif tab == "tank_cost":
                     kind = "tank"
-                    okv = d["value"] is not None and d["value"].has(ex.sym(v2 + ".max_level")) and d["mult"] == 1
-                    okt_ = d["table"] == "tank_cost"
-                elif d["loop"] == "wn.head_pumps()":
+                    okv = lp in TANKS and val is not None and val.has(ex.sym(v2 + ".max_level")) and d["mult"] == 1
+                elif tab == "pump_cost" and val is not None and any(".get_head_curve_coefficients()" in s_.name for s_ in val.free_symbols):
                     kind = "head pump"
-                    okv = d["value"] is not None and d["mult"] == 1
-                    okt_ = d["table"] == "pump_cost"
-                    if d["value"] is not None:
-                        A, B_, C = [ex.sym("%s.get_head_curve_coefficients()[%d]" % (v2, i)) for i in range(3)]
-                        q = sp.exp(sp.log(A / (B_ * (C + 1))) / C)
-                        wantp = sp.Rational("9.81") * 1000 * q * (A - B_ * q ** C)
-                        okpm = (okpm is not False) and (is_zero(d["value"] * eff - wantp) or is_zero(d["value"] * eff / 100 - wantp) or is_zero(d["value"] - wantp))
-                        foundpm = str(d["value"])[:160]
-                elif d["loop"] == "wn.power_pumps()":
+                    okv = d["mult"] == 1 and (lp == "wn.head_pumps()" or (lp == "wn.pumps()" and (holds("HeadPump") or holds("'HEAD'"))))
+                    A, B_, C = [ex.sym("%s.get_head_curve_coefficients()[%d]" % (v2, i)) for i in range(3)]
+                    q = sp.exp(sp.log(A / (B_ * (C + 1))) / C)
+                    wantp = sp.Rational("9.81") * 1000 * q * (A - B_ * q ** C)
+                    okpm = (okpm is not False) and (is_zero(val * eff - wantp) or is_zero(val * eff / 100 - wantp) or is_zero(val - wantp))
+                    foundpm = str(val)[:160]
+                elif tab == "pump_cost":
                     kind = "power pump"
-                    okv = d["value"] is not None and d["mult"] == 1 and (is_zero(d["value"] * eff - ex.sym(v2 + ".power")) or is_zero(d["value"] * eff / 100 - ex.sym(v2 + ".power")))
-                    okt_ = d["table"] == "pump_cost"
-                elif d["loop"] in VALVES:
+                    okv = d["mult"] == 1 and (lp == "wn.power_pumps()" or (lp == "wn.pumps()" and (holds("PowerPump") or holds("'POWER'")))) and val is not None and \
+                        (is_zero(val * eff - ex.sym(v2 + ".power")) or is_zero(val * eff / 100 - ex.sym(v2 + ".power")))
+                elif tab == "prv_cost":
                     kind = "PRV"
-                    isprv = any(_str_cmp(t, v2 + ".valve_type", "PRV") is not None and _str_cmp(t, v2 + ".valve_type", "PRV") == bool(v) for t, v in o.conds)
-                    okv = d["value"] is not None and is_zero(d["value"] - ex.sym(v2 + ".diameter")) and d["mult"] == 1 and isprv
-                    okt_ = d["table"] == "prv_cost"
-                else:
-                    okv = okt_ = False
-                got.append(kind or d["loop"])
+                    vt = v2 + ".valve_type"
+                    isprv = lp == "wn.prvs()" or (any(tv_env(t, {vt: "PRV"}) is not None for t, v in o.conds) and consistent_env(o.conds, {vt: "PRV"}) and not consistent_env(o.conds, {vt: "TCV"}))
+                    okv = (lp in VALVES or lp == "wn.prvs()") and val is not None and is_zero(val - ex.sym(v2 + ".diameter")) and d["mult"] == 1 and isprv
+                got.append(kind or d["text"][:40])
                 key = kind or d["text"][:40]
+                seen_kinds.add(key)
                 prev = seen_sel.get(key, (True, True, ""))
-                seen_sel[key] = (prev[0] and d["sel_ok"] and okt_, prev[1] and okv and okt_, d["how"] or str(d["value"])[:80] + " * " + str(d["mult"]))
+                seen_sel[key] = (prev[0] and d["sel_ok"], prev[1] and okv, d["how"] or str(val)[:80] + " * " + str(d["mult"]) + " in " + str(lp))
             if fn is anc:
-                prv_path = any("valve_type" in t for t, v in o.conds) and "PRV" in got
-                wantk = ["tank", "pipe", "head pump", "power pump"] + (["PRV"] if prv_path else [])
-                if sorted(got) != sorted(wantk):
+                # every element class whose own iterator the path walks contributes exactly one term; nothing else is added
+                need = ["tank"] * any(w in TANKS for w in walked) + ["pipe"] * any(w in PIPES for w in walked) + ["head pump"] * ("wn.head_pumps()" in walked) + ["power pump"] * ("wn.power_pumps()" in walked)
+                extra_ = [k for k in got if k not in ("tank", "pipe", "head pump", "power pump", "PRV")]
+                if extra_ or len(set(got)) != len(got) or any(k not in got for k in need):
                     sums_ok, sums_found = False, sorted(got)
             else:
                 chk.expect(sorted(got) == ["pipe"] and seen_sel.get("pipe", (0, 0))[1], "R-C20-5", "annual_ghg_emissions adds emission factor * length per pipe", loc(ghg), found=seen_sel.get("pipe", ("", "", sorted(got)))[2])
@@ -891,7 +967,7 @@ def run(repo, chk):
             sums_ok = sums_ok and all(k in seen_sel and seen_sel[k][1] for k in ("tank", "pipe", "head pump", "power pump", "PRV"))
             chk.expect(sums_ok, "R-C20-5", "annual_network_cost adds tank + pipe(cost * length) + pump + PRV costs", loc(anc),
                        "each term is the cost looked up for the element's own size (construction volume, diameter, maximum power / efficiency, PRV diameter); only pipes are costed per metre",
-                       found=sums_found or [(k, v[2]) for k, v in seen_sel.items() if not v[1]][:3])
+                       found=sums_found or [(k, v[2]) for k, v in seen_sel.items() if not v[1]][:3] or sorted(seen_sel))
         for k, v in sorted(seen_sel.items()):
             nsel += 1
             chk.expect(v[0], "R-C20-5", "%s selects the nearest table entry by argmin |index - value| [%s]" % (label, k), loc(fn), expected="table.iloc[np.argmin(|table.index - value|)]", found=v[2])
@@ -932,21 +1008,6 @@ def run(repo, chk):
     chk.floor("R-C20-5", 6 + 5, count=nsel + 6)
 
 
-def _str_cmp(text, atom, value):
-    """truth of the condition text when `atom` holds the string `value` (None if it is not a comparison of atom with string constants)"""
-    try:
-        n = ast.parse(text, mode="eval").body
-    except SyntaxError:
-        return None
-    if isinstance(n, ast.Compare) and len(n.ops) == 1 and unparse(n.left) == atom:
-        r = n.comparators[0]
-        if isinstance(n.ops[0], (ast.Eq, ast.NotEq)) and isinstance(r, ast.Constant) and isinstance(r.value, str):
-            return (value == r.value) == isinstance(n.ops[0], ast.Eq)
-        if isinstance(n.ops[0], (ast.In, ast.NotIn)) and isinstance(r, (ast.Tuple, ast.List, ast.Set)) and all(isinstance(x, ast.Constant) for x in r.elts):
-            return (value in [x.value for x in r.elts]) == isinstance(n.ops[0], ast.In)
-    return None
-
-
 WITNESSES = [
     dict(name="wsa-inf-for-zero-expected-demand", file=HYDM, old="    wsa = wsa.replace([np.inf, -np.inf], np.nan)  # expected demand 0: NaN, as documented\n", new="", rule="R-C20-4"),
     dict(name="expected-demand-overshoots-end-time", file=HYDM, old="    tsteps = tsteps[tsteps <= end_time]  # the last step does not pass end_time when the span is not a multiple of the timestep\n", new="", rule="R-C20-6"),
@@ -975,7 +1036,30 @@ WITNESSES = [
     dict(name="period-without-24h", file=HYDM, old="    L = [24*3600]", new="    L = [12*3600]", rule="R-C20-2"),
     dict(name="average-over-junctions", file=HYDM, old="exp_demand.mean(axis=0)", new="exp_demand.mean(axis=1)", rule="R-C20-2"),
     dict(name="ghg-inches-conversion", file=ECON, old="# inches\n        diameter = np.array(diameter)*0.0254 # m", new="# inches\n        diameter = np.array(diameter)*0.0245 # m", rule="R-C20-5"),
+    dict(name="cut-strictly-before-end-time", file=HYDM, old="tsteps = tsteps[tsteps <= end_time]", new="tsteps = tsteps[tsteps < end_time]", rule="R-C20-6"),
+    dict(name="table-indexed-by-uncut-grid", file=HYDM, old="exp_demand = pd.DataFrame(index=tsteps, data=exp_demand)",
+         new="exp_demand = pd.DataFrame(index=np.arange(start_time, end_time+timestep, timestep), data=exp_demand)", rule="R-C20-2"),
+    dict(name="own-price-ignored", file=ECON, old="                price_dict[pump_name] = [pump.energy_price for i in time]",
+         new="                price_dict[pump_name] = [wn.options.energy.global_price for i in time]", rule="R-C20-4"),
+    dict(name="empty-pattern-guard-wrong-sense", file=HYDM, old="        if len(pattern.multipliers) > 0:", new="        if len(pattern.multipliers) >= 0:", rule="R-C20-6"),
+    dict(name="every-valve-costed-as-prv", file=ECON, old="        if link.valve_type == 'PRV':", new="        if link.valve_type != 'GPV':", rule="R-C20-5"),
+    dict(name="pipe-looked-up-by-length", file=ECON, old="np.abs(pipe_cost.index - link.diameter)", new="np.abs(pipe_cost.index - link.length)", rule="R-C20-5"),
+    dict(name="gcd-single-step", file=HYDM, old="  while y:\n    if y<0:", new="  if y:\n    if y<0:", rule="R-C20-1"),
+    dict(name="percent-through-temporary", file=ECON, old="            efficiency_dict[pump_name] = [wn.options.energy.global_efficiency/100.0 for i in time]",
+         new="            e_ = wn.options.energy.global_efficiency\n            efficiency_dict[pump_name] = [e_/1.0 for i in time]", rule="R-C20-3"),
     # ---- behaviour-preserving variants that must stay quiet
+    dict(name="quiet-expected-demand-dict-comprehension", file=HYDM, silent=True,
+         old="    for name, junc in wn.junctions():\n        dem = []\n        for ts in tsteps:\n            dem.append(junc.demand_timeseries_list.at(ts + wn.options.time.pattern_start, \n"
+             "                       multiplier=wn.options.hydraulic.demand_multiplier, category=category))\n        exp_demand[name] = dem \n",
+         new="    exp_demand = {name: [junc.demand_timeseries_list.at(wn.options.time.pattern_start + ts, category, wn.options.hydraulic.demand_multiplier) for ts in tsteps] for name, junc in wn.junctions()}\n"),
+    dict(name="quiet-lcm-floor-division-renamed", file=HYDM, silent=True, old="def _lcm(x,y):\n  return x*y / _gcd(x,y)", new="def _lcm(a, b):\n  g = _gcd(b, a)\n  return a // g * b"),
+    dict(name="quiet-merged-pump-loops-augmented-sum-prv-guard", file=ECON, silent=True,
+         old="    for link_name, link in wn.power_pumps():\n        Pmax = link.power\n", new="    for link_name, link in wn.pumps():\n        if not isinstance(link, PowerPump):\n            continue\n        Pmax = link.power\n",
+         also=[("        if link.valve_type == 'PRV':\n            idx = np.argmin([np.abs(prv_cost.index - link.diameter)])\n            #print(link_name, link.diameter, prv_cost.iloc[idx])\n            network_cost = network_cost + prv_cost.iloc[idx]  ",
+                "        if link.valve_type != 'PRV':\n            continue\n        nearest = np.argmin(np.abs(link.diameter - prv_cost.index))\n        network_cost += prv_cost.iloc[nearest]")]),
+    dict(name="quiet-price-list-by-repetition-eq-none", file=ECON, silent=True, old="[pump.energy_price for i in time]", new="[pump.energy_price]*len(time)",
+         also=[("        elif pump.energy_pattern is None:", "        elif pump.energy_pattern == None:")]),
+    dict(name="quiet-mri-flag-compared-with-true", file=HYDM, silent=True, old="    if per_junction:\n        Pout = (pressure + elevation)", new="    if per_junction == True:\n        Pout = (pressure + elevation)"),
     dict(name="quiet-expected-demand-comprehension-hoisted-locals", file=HYDM, silent=True,
          old="        dem = []\n        for ts in tsteps:\n            dem.append(junc.demand_timeseries_list.at(ts + wn.options.time.pattern_start, \n"
              "                       multiplier=wn.options.hydraulic.demand_multiplier, category=category))\n        exp_demand[name] = dem \n",
